@@ -268,9 +268,12 @@ class Interp:
             self.violation(cid, 'check', vals if st == 'sat' else None, solver=st)
         else:
             res.checks.append((cid, 'unknown', None))
-        # continue under the assumption that the check held (so later checks are independent findings)
+        # continue under the assumption that the check held (so later checks are independent findings); when the check fails for
+        # EVERY input of this path that assumption would end the path and hide the checks that follow: continue without it then
         s.add(cond.s)
-        if r != 'unsat' and s.check() == 'unsat': raise Infeasible()
+        if r != 'unsat' and s.check() == 'unsat':
+            s.asserts.pop()
+            res.tags.append('after-total-violation:' + cid) if False else None
 
     def violation(self, cid, kind, vals, solver='sat', msg=None):
         res = self.res
